@@ -20,9 +20,11 @@ CLAIMS = {'C03': {'text': 'Hazards of the geometry/container layer are enumerate
                  'ends inside the object its pointer was taken from (local array, chunk of '
                  'chunks_exact_mut(N), one pixel, parameter resolved at the call sites); wrapping '
                  'products of caller-controlled values are reported with a concrete assignment '
-                 'that satisfies every guard on the path. Does NOT decide in-kernel index bounds, '
-                 'accumulator ranges or allocation failure; UNDECIDED obligations are listed in '
-                 'the evidence and are not proofs.',
+                 'that satisfies every guard on the path. In precompute_coefficients every step of '
+                 'bound_start / bound_end keeps bound_start <= bound_end (guarded steps, or a '
+                 "count over the current pixel's coefficients only), so Bound.size cannot wrap. "
+                 'Does NOT decide in-kernel index bounds, accumulator ranges or allocation '
+                 'failure; UNDECIDED obligations are listed in the evidence and are not proofs.',
          'note': 'Free-atom premise: arguments of the safe API are unconstrained and independent '
                  'of object state; user ImageView impls honour the unsafe trait contract. 32-bit '
                  'usize (wasm) arithmetic is informational only.',
@@ -41,7 +43,9 @@ CLAIMS = {'C03': {'text': 'Hazards of the geometry/container layer are enumerate
                  'and images/*.rs.; crop_unchecked is never handed a box that comes from the '
                  'options (user crop, fit-into-destination, whole-image default) without passing '
                  'through crop. The converse (nothing inside is rejected) is only covered through '
-                 'the exact forms recognised; unrecognised forms become UNDECIDED.',
+                 'the exact forms recognised; unrecognised forms become UNDECIDED. '
+                 'PixelType::is_aligned demands exactly the component alignment for each of the 13 '
+                 'pixel types.',
          'note': 'Accepted fact forms are enumerated in fircheck/engines/validators.py.',
          'technique': 'static analysis: guard-fact entailment on Ok-return paths (MIR), closure '
                       'inlining for checked_mul/map_or, dominance of constructors by validators'},
@@ -60,8 +64,10 @@ CLAIMS = {'C03': {'text': 'Hazards of the geometry/container layer are enumerate
                  'through a raw pointer: every call site passes a chunk of exactly that many '
                  'components. Raw stores end inside the object their pointer was taken from '
                  '(storewidth: the bytes of the chunk / array / pixel are read from the code, '
-                 'offsets and widths from the pointer arithmetic and the intrinsic). Does NOT '
-                 "decide that a kernel's inner column loops visit every column.",
+                 'offsets and widths from the pointer arithmetic and the intrinsic). Every '
+                 'iter_rows_with_step implementation yields ceil((height - start)/step) rows (up '
+                 "to max_rows), so no destination row is skipped. Does NOT decide that a kernel's "
+                 'inner column loops visit every column.',
          'note': 'Leaf write event = ImageViewMut::{iter_rows_mut,iter_N_rows_mut,split_by_*_mut}; '
                  'what a kernel does with the rows is not analysed. Zero-size guards are '
                  'recognised as comparisons of width()/height()/crop fields with 0.',
@@ -94,8 +100,10 @@ CLAIMS = {'C03': {'text': 'Hazards of the geometry/container layer are enumerate
                  'intrinsic of the SIMD divide primitives is an exact test against zero (an '
                  'ordering test or another constant on floating-point alpha is a violation). '
                  'RECIP_ALPHA[0] = 0 and every entry is within half a unit of 2^k * 255 / a '
-                 '(compile-time table contents). Does NOT decide faithfulness of the reciprocal '
-                 'tables nor the float paths.',
+                 '(compile-time table contents). The 16-bit reciprocal table keeps the quotient '
+                 'error below 1/2 for every alpha (otherwise a colour / alpha pair with a '
+                 'non-neighbouring result is exhibited). Does NOT decide faithfulness of the '
+                 'reciprocal tables nor the float paths.',
          'note': 'Intrinsic classification tables (saturating / arithmetic / load) are in '
                  'fircheck/engines/deps.py; lane bounds assume alpha >= 1 (alpha == 0 is the '
                  "kernels' documented indefinite-value path).",
@@ -131,8 +139,10 @@ CLAIMS = {'C03': {'text': 'Hazards of the geometry/container layer are enumerate
                  'returns its input early under a predicate that holds as soon as one lane matches '
                  '(any-lane fast path). The branch of a divide routine that overwrites the whole '
                  'pixel (alpha included) is taken only under an exact zero test of alpha, so the '
-                 'resampled alpha channel leaves the division unchanged. Does NOT decide the '
-                 'metamorphic equalities (independence of colours under alpha 0).',
+                 'resampled alpha channel leaves the division unchanged. resample_super_sampling '
+                 'hands its destination only to resample_convolution with its own use_alpha flag. '
+                 'Does NOT decide the metamorphic equalities (independence of colours under alpha '
+                 '0).',
          'note': 'Anchors by def-path (resample_convolution, multiply_alpha_typed, do_convolution, '
                  'divide_alpha*); unrecognised shapes become UNDECIDED.',
          'technique': 'static analysis: dominance / must-pass-through typestate on MIR CFG, '
@@ -148,7 +158,8 @@ CLAIMS = {'C03': {'text': 'Hazards of the geometry/container layer are enumerate
                  'matching axis; the aliasing handle UnsafeImageMut is created only inside the '
                  'default mutable splits and is the only unsafe Send/Sync impl (witnesses W3, W5 '
                  'in the thorough tier).; both images of a two-image split go through split_by_* '
-                 '(hand-placed bands at offset + i*total/n are a violation). Does NOT decide '
+                 '(hand-placed bands at offset + i*total/n are a violation). No closure run by '
+                 'rayon restarts an accumulating row iterator at base + step * k. Does NOT decide '
                  'disjointness of the band rectangles (loop-carried sums) nor anything about '
                  'scheduling at run time.',
          'note': 'Schedule independence is argued structurally: bands are disjoint views created '
@@ -228,7 +239,9 @@ CLAIMS = {'C03': {'text': 'Hazards of the geometry/container layer are enumerate
                  'are normalised. The precision search of Normalizer16/32::new can reach the '
                  'head-room of the accumulator (21 / 45 bits): a search capped at or below the '
                  'width of the coefficient type loses the adaptation to the small weights of wide '
-                 'windows. The numerical error bound of the property is NOT decided.',
+                 'windows. The rounding terms that reach every final shift total exactly half an '
+                 'output unit (round-budget, as under C02 / C18). The numerical error bound of the '
+                 'property is NOT decided.',
          'note': 'Kind sources are getter/field/parameter names (width/left/col vs '
                  'height/top/row).',
          'technique': 'static analysis: polynomial normal form of MIR expressions compared with '
@@ -346,8 +359,9 @@ CLAIMS = {'C03': {'text': 'Hazards of the geometry/container layer are enumerate
                  'calls and store helpers; 82 of 96 stores followed). The alpha primitives are '
                  'held to the portable routines as in C06: exact zero test as the only '
                  'transparency guard, the rounded-division normal form, pixel/component '
-                 'provenance, no any-lane early return. Bit equality of the computed pixels is NOT '
-                 'decided.',
+                 'provenance, no any-lane early return. In every vertical kernel the index of '
+                 'every source access depends on the column cursor src_x (the offset of the pass '
+                 'is never dropped). Bit equality of the computed pixels is NOT decided.',
          'note': 'Trusted: rustc type checker/MIR, firdrv, back-end module naming '
                  '(avx2/sse4/neon/wasm32/native). Numerical equality of kernels is out of reach of '
                  'this technique.',
